@@ -2,6 +2,7 @@ mod e1;
 mod explore;
 mod graphs;
 mod report;
+mod seq_crash;
 mod seq_fs;
 mod seq_inc;
 mod seq_resolve;
@@ -26,6 +27,7 @@ fn main() {
         "check" => run_check(&args[2]),
         "replay" => replay_file(&args[2]),
         "bench" => bench(&args[2]),
+        "worker" => worker(&args[2..]),
         "explore" => explore_named(&args[2..]),
         _ => usage(),
     };
@@ -47,6 +49,11 @@ fn run_check(id: &str) -> i32 {
                 "C17" => e1::check_c17(&mut rep),
                 _ => e1::check_c20(&mut rep),
             }
+            rep.finish()
+        }
+        "C05" => {
+            let mut rep = Report::new(id, "fault_enumeration");
+            seq_crash::check_c05(&mut rep);
             rep.finish()
         }
         "C02" | "C03" | "C13" => {
@@ -216,6 +223,18 @@ fn explore_named(args: &[String]) -> i32 {
         let st = explore(&cfg, &mk(&c), &opts);
         println!("{:28} states={:9} trans={:9} execs={:9} terminals={:7} obs={} depth={} capped={} findings={} wall={:.1}s", c.name, st.states, st.transitions, st.executions, st.terminals, st.observations.len(), st.max_depth, st.capped, st.findings.len(), st.wall_s);
         for f in st.findings.values() { println!("   finding: {}", f.fingerprint); }
+    }
+    0
+}
+
+fn worker(args: &[String]) -> i32 {
+    let kind = args[0].as_str();
+    let thorough = args[1] == "thorough";
+    let start: usize = args[2].parse().unwrap();
+    let end: usize = args[3].parse().unwrap();
+    match kind {
+        "c05" => seq_crash::worker(thorough, start, end),
+        _ => return 2,
     }
     0
 }
